@@ -270,17 +270,34 @@ theorem own_ak4 (el : ErrTree.Ele) (x : PSeg) (hx : x ∈ eleLines997 el) (hnb :
     OwnFacts kAK4 0 (toSeg x).elems := by
   intro j e hj ho
   have hid : x.id ≠ isaId := by rw [eleBase997_id el x hx]; decide
-  simp only [kAK4, Nat.zero_add, beq_iff_eq] at ho
-  subst ho
-  obtain ⟨c, hc, he⟩ := toSeg_get x hid hnb 2 e hj
-  obtain ⟨k, hk, hx2⟩ := ak4_code el x hx
-  rw [hx2] at hc
-  simp only [Option.some.injEq] at hc
-  subst hc
-  rw [code_single validAK4 validAK4_nocolon k hk] at he
-  left
-  simp only [kAK4, Nat.zero_add, if_true, List.mem_map]
-  exact ⟨k, hk, he.symm⟩
+  simp only [kAK4, Nat.zero_add, Bool.or_eq_true, Bool.and_eq_true, beq_iff_eq] at ho
+  rcases ho with ho | ⟨ho, hshape⟩
+  · subst ho
+    obtain ⟨c, hc, he⟩ := toSeg_get x hid hnb 2 e hj
+    obtain ⟨k, hk, hx2⟩ := ak4_code el x hx
+    rw [hx2] at hc
+    simp only [Option.some.injEq] at hc
+    subst hc
+    rw [code_single validAK4 validAK4_nocolon k hk] at he
+    left
+    simp only [kAK4, Nat.zero_add, if_true, List.mem_map]
+    exact ⟨k, hk, he.symm⟩
+  · -- AK402: own by its shape — empty, or one to four digits
+    subst ho
+    match e, hshape with
+    | [v], hshape =>
+      simp only [ownAK402, Bool.or_eq_true, Bool.and_eq_true, List.isEmpty_iff, List.all_eq_true, decide_eq_true_eq] at hshape
+      rcases hshape with hv | ⟨hd, hl⟩
+      · left
+        subst hv
+        simp [kAK4]
+      · by_cases hv : v = []
+        · left
+          subst hv
+          simp [kAK4]
+        · right
+          refine ⟨1, 4, v, by simp [kAK4], rfl, hd, ?_, hl⟩
+          exact List.length_pos_iff.2 hv
 
 /-! #### GS -/
 
